@@ -197,6 +197,11 @@ def run(prog: Program, res: Result, tier: str) -> None:
 
     check_bitorder_pairing(prog, res, "R6")
 
+    hd = prog.func(HEADER, "Header.dtype")
+    ok = "return BitsInfo(self.nbits).dtype" in norm(hd.node)
+    (res.ok if ok else res.bad)("R2", hd, hd.node, "Header.dtype is the storage dtype of header.nbits (what from_tim reads with)" if ok else
+                                "Header.dtype is no longer BitsInfo(self.nbits).dtype", construct="Header.dtype", key="Header.dtype")
+
     # ---- R7 requantisation to the declared depth ------------------------------------------------------------
     from .. import kernelspec
     from ..props import property_expr
@@ -338,7 +343,7 @@ def run(prog: Program, res: Result, tier: str) -> None:
     res.floor("R1", 1)
     res.floor("R6", 3)
     res.floor("R7", 5)
-    res.floor("R2", 5)
+    res.floor("R2", 6)
     res.floor("R3", 13)
     res.floor("R4", 2)
     res.floor("R5", 4)
